@@ -234,7 +234,10 @@ def strat_lists(tier):
   free = st.lists(filt_st(), min_size=1, max_size=3)
   return st.fixed_dictionaries(dict(
     parts=st.one_of(free, free, share), x=st.lists(qv, max_size=9),
-    how=st.sampled_from(["args", "list"])))
+    how=st.sampled_from(["args", "list"]),
+    feed=st.sampled_from(["list", "tuple", "iter", "gen", "stream", "stream"]),
+    nest=st.booleans(),
+    replace=st.one_of(st.none(), st.tuples(st.integers(0, 2), filt_st(), st.sampled_from(["setitem", "imul", "slice"])))))
 
 
 def run_lists(c):
@@ -249,8 +252,18 @@ def run_lists(c):
     sum_m = sum_m + RF.lists(*p)
     prod_r = mk(p) if prod_r is None else prod_r * mk(p)
     sum_r = mk(p) if sum_r is None else sum_r + mk(p)
-  co = list(casc(list(x), zero=ZERO))
-  po = list(par(list(x), zero=ZERO))
+  from audiolazy import Stream
+  feed = {"list": list, "tuple": tuple, "iter": iter, "gen": lambda v: (t for t in v), "stream": Stream}[c.get("feed", "list")]
+  co = list(casc(feed(list(x)), zero=ZERO))
+  po = list(par(feed(list(x)), zero=ZERO))
+  if c.get("nest") and parts:
+    # a parallel bank fed by another filter's output Stream, inside a cascade
+    first = mk(parts[0])
+    nested = CascadeFilter(first, ParallelFilter(*fs()))
+    no = list(nested(feed(list(x)), zero=ZERO))
+    if no != (RF.lists(*parts[0]) * sum_m).response(x):
+      raise Violation("CascadeFilter(f, ParallelFilter(...)) output %r, expected %r (parts=%r x=%r feed=%s)"
+                      % (no, (RF.lists(*parts[0]) * sum_m).response(x), parts, x, c.get("feed")))
   if co != prod_m.response(x) or co != run_filt(prod_r, x):
     raise Violation("cascade output %r, product filter output %r, expected %r (parts=%r x=%r)"
                     % (co, run_filt(prod_r, x), prod_m.response(x), parts, x))
@@ -266,11 +279,89 @@ def run_lists(c):
                     % (par.numpoly, par.denpoly, sum_r.numpoly, sum_r.denpoly, parts))
   expect_same(casc, prod_m, "CascadeFilter polynomials")
   expect_same(par, sum_m, "ParallelFilter polynomials")
-  labels = ["%d parts" % len(parts)]
+  labels = ["%d parts" % len(parts), "feed:" + c.get("feed", "list")]
   if len(parts) >= 2 and len(set(tuple(p[1]) for p in parts)) < len(parts):
     labels.append("shared denominator")
+  # a filter list is a mutable list: after a member is replaced in place, polynomials and output
+  # must follow the current members (nothing may be remembered from the first reading)
+  rep = c.get("replace")
+  if rep is not None:
+    i, newp, how = rep
+    i %= len(parts)
+    newp = tuple(newp)
+    if how == "imul":
+      newp = ([2 * v for v in parts[i][0]], list(parts[i][1]))
+    parts2 = parts[:i] + [newp] + parts[i + 1:]
+    for lst in (casc, par):
+      if how == "setitem":
+        lst[i] = mk(newp)
+      elif how == "imul":
+        lst[i] *= 2
+      else:
+        lst[i:i + 1] = [mk(newp)]
+    prod2, sum2 = RF({0: 1}), RF({})
+    for p2 in parts2:
+      prod2 = prod2 * RF.lists(*p2)
+      sum2 = sum2 + RF.lists(*p2)
+    expect_same(casc, prod2, "CascadeFilter polynomials after replacing member %d in place (%s)" % (i, how))
+    expect_same(par, sum2, "ParallelFilter polynomials after replacing member %d in place (%s)" % (i, how))
+    if list(casc(list(x), zero=ZERO)) != prod2.response(x) or list(par(list(x), zero=ZERO)) != sum2.response(x):
+      raise Violation("outputs after replacing member %d in place (%s) do not follow the current members %r"
+                      % (i, how, parts2))
+    labels.append("member replaced in place")
   return {"nontrivial": len(parts) >= 2 and all(order(p) >= 1 for p in parts) and len(x) >= 3,
           "labels": labels}
+
+
+# ---------------------------------------------------------------- linearize (fractional delays)
+def strat_lin(tier):
+  frac = st.sampled_from([.5, .25, .75, 1.5, 2.25, 0.125, 3.5])
+  term = st.one_of(st.tuples(st.integers(0, 4), ints), st.tuples(frac, nzint), st.tuples(frac, nzint))
+  return st.fixed_dictionaries(dict(
+    num=st.lists(term, min_size=1, max_size=4, unique_by=lambda t: t[0]),
+    den=st.lists(st.tuples(st.sampled_from([1, 2, 1.5, 2.5, 1.25]), ints), max_size=2, unique_by=lambda t: t[0]),
+    x=st.lists(qv, min_size=2, max_size=8), build=st.sampled_from(["dict", "expr", "expr_rev"])))
+
+
+def run_lin(c):
+  """z**-(k+a) is linearised to (1-a) z**-k + a z**-(k+1), term by term and additively, in any term order."""
+  num, den = [tuple(t) for t in c["num"]], [(0, 1)] + [tuple(t) for t in c["den"]]
+  def mkf(terms, how):
+    if how == "dict":
+      return dict(terms)
+    ts = list(terms) if how == "expr" else list(reversed(terms))
+    f = ZFilter(0)
+    for k, v in ts:
+      f = f + v * z ** -k
+    return f
+  if c["build"] == "dict":
+    filt = ZFilter(mkf(num, "dict"), mkf(den, "dict"))
+  else:
+    filt = mkf(num, c["build"]) / mkf(den, c["build"])
+  lin = filt.linearize()
+  def model(terms):
+    out = {}
+    for k, v in terms:
+      if v == 0:
+        continue
+      lo = int(k)
+      w = F(k) - lo
+      for kk, vv in ((lo, F(v) * (1 - w)), (lo + 1, F(v) * w)):
+        if vv != 0:
+          out[kk] = out.get(kk, 0) + vv
+    return trim(out)
+  M = RF(model(num), model(den))
+  got = rf_of(lin)
+  if not all(isinstance(k, int) for k in list(got.n) + list(got.d)):
+    raise Violation("linearize() left non-integer delays: %r / %r" % (got.n, got.d))
+  if not got.same(M):
+    raise Violation("linearize() of num=%r den=%r (built as %s) gives (%r)/(%r), expected (%r)/(%r)"
+                    % (num, den, c["build"], got.n, got.d, M.n, M.d))
+  labels = ["build:" + c["build"]]
+  ks = [k for k, v in num if v != 0]
+  if any(isinstance(k, float) and any(isinstance(j, int) and j in (int(k), int(k) + 1) for j in ks) for k in ks):
+    labels.append("fractional tap lands on an integer term")
+  return {"nontrivial": len(ks) >= 2, "labels": labels}
 
 
 # ---------------------------------------------------------------- (c) expression trees / field laws
@@ -535,6 +626,9 @@ CLAUSES = [
   Clause("cascade_parallel", strat_lists, run_lists, quick=700, thorough=15000,
          floors={"shared denominator": .1},
          doc="CascadeFilter == product, ParallelFilter == sum: outputs and numpoly/denpoly by cross-multiplication"),
+  Clause("linearize", strat_lin, run_lin, quick=500, thorough=8000,
+         floors={"fractional tap lands on an integer term": .1},
+         doc="linearize(): fractional delays become the two neighbouring integer taps, additively and independently of term order"),
   Clause("expression_trees", strat_trees, run_trees, quick=800, thorough=20000,
          floors={"subst": .03, "field laws": .3, "**": .05},
          doc="trees over + - * / ** neg and substitution vs rational-function model; commutative/associative/distributive/f/f/f-f laws"),
